@@ -1010,10 +1010,12 @@ def ast_tags(tree, text, lines):
                     t.add("kwonly-default-names-kwonly-param")
         if huge_const_op(n):
             t.add("huge-const-op")
-        if isinstance(n, ast.Assign) and len(n.targets) == 1 and isinstance(n.targets[0], (ast.Tuple, ast.List)) and \
-                isinstance(n.value, ast.Subscript) and isinstance(n.value.slice, ast.Slice) and n.value.slice.lower is not None and \
-                small_int(n.value.slice.lower) is None:
-            t.add("unpack-slice-nonconst-start")
+        if isinstance(n, ast.Assign) and len(n.targets) == 1 and isinstance(n.targets[0], (ast.Tuple, ast.List)):
+            v = n.value         # a chain of slicings x[a:b][c:d]...: one start that is not a constant is enough
+            while isinstance(v, ast.Subscript) and isinstance(v.slice, ast.Slice):
+                if v.slice.lower is not None and small_int(v.slice.lower) is None:
+                    t.add("unpack-slice-nonconst-start")
+                v = v.value
         if isinstance(n, (ast.For, ast.AsyncFor)) and isinstance(n.iter, (ast.Tuple, ast.List)) and n.iter.elts and \
                 all(isinstance(e, ast.Constant) and isinstance(e.value, (float, complex)) and not isinstance(e.value, bool) for e in n.iter.elts) \
                 and any(isinstance(e.value, complex) for e in n.iter.elts):
@@ -1021,6 +1023,8 @@ def ast_tags(tree, text, lines):
         if isinstance(n, ast.Call) and isinstance(n.func, ast.Attribute) and n.func.attr == "decode" and not n.args and not n.keywords \
                 and isinstance(n.func.value, ast.Constant) and isinstance(n.func.value.value, bytes):
             t.add("bytes-literal-decode-noargs")
+        if isinstance(n, ast.Constant) and type(n.value) is complex and n.value.imag in (float("inf"), float("-inf")):
+            t.add("imag-literal-overflows-to-inf")
         if isinstance(n, ast.Constant) and type(n.value) is int and n.value.bit_length() > 14280:
             t.add("int-over-4300-digits")
             p = parents.get(n)
@@ -1044,6 +1048,15 @@ def text_tags(text):
     if re.search(r"(?<![\w.])\d{4301,}", text) or re.search(r"(?i)(?<![\w.])0x[0-9a-f_]{3572,}", text) or \
             re.search(r"(?i)(?<![\w.])0b[01_]{14285,}", text) or re.search(r"(?i)(?<![\w.])0o[0-7_]{4762,}", text):
         t.add("int-over-4300-digits")
+    if re.search(r"(?i)(?<![\w.])0[xob][0-9a-f_]+j\b", text):
+        t.add("prefixed-int-imag")
+    if re.search(r"(?m)^nonlocal\b", text):
+        t.add("nonlocal-at-module-level")
+    if re.search(r"(?m)^[ \t]*match\b[^\n]*:[ \t]*\n[ \t]+case\b", text):
+        t.add("match-stmt")
+    mc = re.search(r"\A(?:[^\n]*\n)?[ \t\f]*#.*?coding[:=][ \t]*([-\w.]+)", text)
+    if mc:
+        t.add("coding-cookie:" + mc.group(1).lower())
     m = re.match(r"\s*(?:#[^\n]*\n\s*)*([A-Za-z_]\w*)", text)
     if m and m.group(1) in ("print", "exec"):
         t.add("first-token-" + m.group(1))
